@@ -189,12 +189,24 @@ impl<'a> G<'a> {
             // beyond any size the repository's tests use (a batch of 1024 signatures has 2049 terms)
             sizes.push((2049, 1));
         }
+        if self.rng.chance(1, 3) {
+            // the 7-bit-window regime of Pippenger (500 <= n < 800)
+            sizes.push((600, 2));
+        }
         if self.cfg.thorough {
             sizes.extend_from_slice(&sizes_t);
         }
         let w: Vec<u32> = sizes.iter().map(|x| x.1).collect();
-        let n = sizes[self.rng.weighted(&w)].0 as usize;
-        let entry = self.rng.below(3) as u8;
+        let mut n = sizes[self.rng.weighted(&w)].0 as usize;
+        let mut entry = self.rng.below(3) as u8;
+        if self.rng.chance(1, if self.cfg.thorough { 300 } else { 2500 }) {
+            // more terms than any fixed-size block an implementation might work in (4096, 8192)
+            n = if self.rng.coin() { 4100 } else { 8200 };
+            if self.rng.coin() {
+                entry = 0;
+            }
+            bump(&mut self.c, "probe:msm_beyond_block_sizes");
+        }
         let live = self.live(g);
         if live.is_empty() {
             return;
@@ -206,8 +218,21 @@ impl<'a> G<'a> {
         if unreduced_mode {
             bump(&mut self.c, "probe:msm_with_unreduced_scalars");
         }
+        // every scalar of the input short (top bytes zero): an implementation may size its work from the longest one
+        let short_len = if !unreduced_mode && self.rng.chance(1, 8) { 1 + self.rng.below(31) as usize } else { 32 };
+        if short_len < 32 {
+            bump(&mut self.c, "probe:msm_all_scalars_short");
+        }
         for _ in 0..n {
-            let s = if unreduced_mode { self.scalar(true) } else { self.scalar_canon() };
+            let mut s = if unreduced_mode { self.scalar(true) } else { self.scalar_canon() };
+            if short_len < 32 {
+                let mut b = [0u8; 32];
+                b[..short_len].copy_from_slice(&s.b.0[..short_len]);
+                if self.rng.chance(1, 3) {
+                    b[short_len - 1] |= 0x80;
+                }
+                s = Sc { b: B(b.to_vec()), k: 1 };
+            }
             ss.push(s);
             hs.push(Some(live[self.rng.below(live.len() as u64) as usize]));
         }
